@@ -92,7 +92,8 @@ prop("C03",
      SCHED_RULE + " Programs: 1-2 (3 thorough) writers x 1-2 modify calls, 1-2 readers x 1-3 acquisitions through "
      "each of the four shared-acquisition forms, with and without overlapping handles, commuting and non-commuting "
      "functors; functors that throw half-way on their first / second application; modify() called from a destructor "
-     "while another exception is propagating (std::uncaught_exceptions() > 0).",
+     "while another exception is propagating (std::uncaught_exceptions() > 0); scale: one reader keeping 256 "
+     "(thorough: 65536) shared handles at once while a writer modifies.",
      "Real lr_guarded<Pair> (two-word payload with scheduling points inside functor, copy and reads). Oracles: "
      "ghost access windows per copy (functor vs reader), torn pair, value stable while a handle is held, freshness "
      "(>= modifies returned before the acquisition began, <= modifies invoked when it returned), per-reader "
@@ -134,7 +135,8 @@ prop("C05",
      SCHED_RULE + " Programs: list prefilled with 2-3 elements; 1-2 traversers (read or write handle) pausing on "
      "each element, an eraser (1st / 2nd / last / all elements, double erase, erase+push), 0-2 short-lived handles "
      "whose release triggers reclamation, second erasers/pushers; programs starting from an EMPTY list in which a "
-     "reader's handle is first used before anything was inserted and stays in use across another thread's push; weak-CAS failures and stale reads of the relaxed "
+     "reader's handle is first used before anything was inserted and stays in use across another thread's push; "
+     "scale programs (5 elements all erased + short handles, and 7 short handles, behind a handle that stays held); weak-CAS failures and stale reads of the relaxed "
      "log-head load are deviations of the same budget. Second harness: the same programs over an allocator whose "
      "n-th allocation fails (every n, one failure per run; the failed operation is caught and the handle reused), "
      "explored with up to 1 (thorough 2) further deviations.",
@@ -179,7 +181,8 @@ prop("C13",
      "access (begin), release, push_front, push_back, ++it, erase(it)} on an empty and on a 2-element list, ending "
      "with release and list destruction. Concurrent part: " + SCHED_RULE + " Programs: pausing traversers, erasers, "
      "pushers and 1-3 short-lived handles (reclamation by concurrent releases), two erasers of the same element, "
-     "readers whose handle is first used on the empty list. In every program each allocation of a client operation "
+     "readers whose handle is first used on the empty list, scale programs (5 elements all erased + 2 short handles, "
+     "7 short handles, behind a held handle). In every program each allocation of a client operation "
      "and each element construction may fail (fault enumeration, one failure per run; thorough: two).",
      "Real rcu_list<Tracked, std::mutex, CountingAlloc<Tracked>> and rcu_list<element holding a heap-allocated "
      "std::string> (second harness; quick tier: the first 3000 histories): element type with non-trivial destructor, "
@@ -221,8 +224,9 @@ prop("C01",
      SCHED_RULE + " Instances: guarded, guarded_opt(on) x {mutex, timed_mutex}; shared_guarded, "
      "shared_guarded_opt(on), ordered_guarded x {mutex, timed_mutex, shared_mutex, shared_timed_mutex}. Alphabet: "
      "lock+RMW, lock+RMW+unlock(), try_lock, try_lock_for, try_lock_until, load, store, operator=, modify, "
-     "modify(returning), operator T(), and handle re-use (h = try_lock(); if (!h) h = lock();) as available for the "
-     "mutex type. All programs with 2 threads x 1 op, 3 threads x 1 op, "
+     "modify(returning), operator T(), handle re-use (h = try_lock(); if (!h) h = lock();), hand-over-hand "
+     "assignment from a second wrapper (h = other.lock()), and a try form followed by unlock() whatever it returned, "
+     "as available for the mutex type. All programs with 2 threads x 1 op, 3 threads x 1 op, "
      "2+1 ops (thorough: 2+2 ops, 4 threads).",
      "Oracles: ghost access windows on the wrapped object (payload copy/assign/compare have scheduling points "
      "inside, so load/store/operator= have observable windows), torn pair, lock model says the handle's thread "
@@ -242,8 +246,10 @@ prop("C02",
      SCHED_RULE + " Instances: shared_guarded, shared_guarded_opt(on), ordered_guarded, deferred_guarded x the four "
      "mutex types. Alphabet: writer ops (lock+RMW, try_lock, try_lock_for, store, modify, modify_detach, "
      "modify_async) and reader ops (lock_shared, try_lock_shared, try_lock_shared_for/until, const lock(), read, "
-     "read(returning), load, and a shared handle re-used after a failed try_lock_shared); programs with at least "
-     "one reader op; plus rendezvous programs (two readers must "
+     "read(returning), load, a shared handle re-used after a failed try_lock_shared, hand-over-hand assignment "
+     "from a second wrapper, try_lock_shared then unlock() whatever it returned); programs with at least one reader "
+     "op; scale programs for deferred_guarded (a reader keeps its handle while 3 / 10 / 20 modifications are queued "
+     "behind it and a second reader arrives); plus rendezvous programs (two readers must "
      "meet inside their shared sections) for shared-capable mutex types.",
      "Oracles: ghost windows (READ||WRITE and WRITE||WRITE forbidden, READ||READ allowed and required to be "
      "observed at least once: cover flag), torn pair, value stable under a shared handle, linearizable history, "
@@ -261,11 +267,13 @@ prop("C15",
      "checked against a plain variable. Concurrent part: " + SCHED_RULE + " Instances: atomic_guarded (load, store, "
      "operator=, exchange, compare_exchange), guarded, guarded_opt (both flag values), ordered_guarded (load, "
      "store, operator=), deferred_guarded (load, modify_detach as writer); 2 threads x 1 op, 3 threads x 1 op, "
-     "2+1 ops.",
+     "2+1 ops, 2+2 ops for deferred_guarded (thorough: for every small alphabet, and 4 threads x 1 op).",
      "Oracles: brute-force linearizability of every call/return history (total-order stamps) against a "
      "sequential register: exchange returns the value it replaced, compare_exchange succeeds iff current == "
      "expected and otherwise reports the current value; no returned value is half-written (payload operations "
-     "contain scheduling points); race detector.",
+     "contain scheduling points); race detector. A deferred modification may take effect after its call returned, "
+     "but not later than the first access made at quiescence, and two deferred modifications ordered by real time "
+     "take effect in that order.",
      A_COMMON,
      "Exhaustive enumeration of operation sequences plus exhaustive deviation-bounded exploration of concurrent "
      "histories with a linearizability check.",
@@ -281,7 +289,7 @@ prop("C08",
      "{none, exclusive handle, shared handle, inside modify(), inside modify_detach(), shared handle held while a "
      "modify_detach is queued behind it (deferred_guarded)} that either keeps its handle "
      "for the whole attempt or releases it concurrently by destruction / unlock() / move-construction / "
-     "move-assignment (target holding a lock of another wrapper); contender using each of try_lock, try_lock_for, "
+     "move-assignment (target holding a lock of another wrapper) / assignment of a null handle to it; contender using each of try_lock, try_lock_for, "
      "try_lock_until, try_lock_shared, try_lock_shared_for, try_lock_shared_until, blocking lock / lock_shared / "
      "const lock, and a handle that failed a try form and is then assigned from the blocking form; optional third thread making a "
      "blocking acquisition after the release.",
@@ -308,7 +316,8 @@ prop("C06",
      "Alphabet: modify_detach (plain / throwing functor), modify_async (value / void / throwing), shared handle through each acquisition form "
      "released at once or held across the next 1-2 operations of the same thread, load. All 2-thread programs with "
      "<=2 ops per thread and all 3-thread programs with 1 op per thread that contain 1-4 submissions (thorough: "
-     "3 threads with one 2-op thread); each ends with lock_shared() or modify_detach(nop) made at quiescence.",
+     "3 threads with one 2-op thread; quick: the family reader | one submission | two submissions at three "
+     "preemptions); each ends with lock_shared() or modify_detach(nop) made at quiescence.",
      "Every functor has a unique id and logs its execution. Oracles: no id executes twice at any time and each "
      "executes exactly once after quiescence plus one lock_shared / modify call; functor write windows overlap "
      "neither each other nor any reader window; value stable while a shared handle is held; execution order "
@@ -330,7 +339,9 @@ prop("C16",
      "on DelayedDestructor and DelayedDestructorSingleThread, followed by destruction of the container and release "
      "of the remaining owners, compared after every step with a reference multiset (results of destroyObjects / "
      "size, which objects are destroyed, callback counts); short sequences additionally with destructors and "
-     "callbacks that re-enter the container (size / add / destroyObjects). Concurrent part: " + SCHED_RULE +
+     "callbacks that re-enter the container (size / add / destroyObjects); scale sequences with 9 / 17 (thorough: "
+     "33) objects plus one externally owned and three destroyObjects passes, both classes, with and without "
+     "callback. Concurrent part: " + SCHED_RULE +
      " Programs: pairs and triples of roles (adders, owners dropping references, destroyObjects callers incl. timed, "
      "size pollers) with plain and re-entering destructors/callbacks; every try_lock_for may time out whenever the "
      "lock is held; sleeps are virtual.",
@@ -354,9 +365,10 @@ prop("C17",
      "addObject+type x3, addType x3, copyObject x3, removeObject(name) x3, removeObject(predicate never / id==1 / "
      "id==2 / always)); names include one longer than the small-string buffer; after every step the whole query "
      "surface (findObject by name for every name, checkObjectType for every name and type, getObjects, empty, "
-     "findObject(pred), findObject(pred,type)) is compared with a reference map; tag queries on names that received "
-     "addType while not stored are skipped (unspecified). Concurrent part: " + SCHED_RULE + " Programs: 2 clients "
-     "with <=2 calls and 3 clients with 1 call over 13 calls.",
+     "findObject(pred), findObject(pred,type)) is compared with a reference map; an entry that received addType "
+     "while its name was not stored has unspecified tags: checkObjectType on it is skipped and the typed find must "
+     "return one of the objects that reading allows (it is always executed: memory safety). Concurrent part: " + SCHED_RULE + " Programs: 2 clients "
+     "with <=2 calls and 3 clients with 1 call over 14 calls (including addType).",
      "Oracles: reference-map agreement; quarantine arena (std::map nodes are allocated through the replaced "
      "operator new, so any instrumented read of an erased node is reported); brute-force linearizability of "
      "concurrent histories against the reference map; an object returned to a caller is used afterwards (id, check "
@@ -376,7 +388,8 @@ prop("C18",
      "requested once) on DelayedObjects<int> and DelayedObjects<std::string> (heap-allocated values), followed by "
      "destruction; after every step isRecognized / isCompleted for every key and the readiness of every handed-out "
      "future are compared with a reference life-cycle model, and at the end every future must deliver the "
-     "reference value. Concurrent part: " + SCHED_RULE + " Programs: futures requested up front with one "
+     "reference value; histories that request both int keys are repeated with the second int key at 64 and 256 "
+     "(thorough: 32, 65536) instead of 1. Concurrent part: " + SCHED_RULE + " Programs: futures requested up front with one "
      "consumer fiber each (awaiting readiness, then get()), 2-3 clients issuing setters (copy/move), "
      "fulfillAllPromises, finishedWithValue, queries and a further getFuture; the container is destroyed while "
      "consumers may still be waiting.",
